@@ -104,9 +104,27 @@ fn encode_record(r: &MRecord) -> Vec<u8> {
 }
 
 pub fn build(case: &Case) -> (Vec<u8>, Vec<u8>, Vec<MRecord>) {
-    let recs = records(case.ty, case.n);
+    build_m(case, true)
+}
+
+/// `with_m` false: the records are stored without their optional M block (where the type has one)
+pub fn build_m(case: &Case, with_m: bool) -> (Vec<u8>, Vec<u8>, Vec<MRecord>) {
+    let mut recs = records(case.ty, case.n);
+    if !with_m {
+        for r in recs.iter_mut() {
+            if let MBody::Shape { with_m: w, shape, .. } = &mut r.body {
+                *w = false;
+                // what is not stored cannot be expected back
+                for p in shape.parts.iter_mut() {
+                    for q in p.pts.iter_mut() {
+                        q[3] = NO_DATA;
+                    }
+                }
+            }
+        }
+    }
     let decoy = {
-        let mut d = recs[0].clone();
+        let mut d = records(case.ty, 1)[0].clone();
         d.number = 99;
         if let MBody::Shape { shape, .. } = &mut d.body {
             for p in shape.parts.iter_mut() {
@@ -421,7 +439,7 @@ fn run_case(case: &Case, ctx: &mut Ctx) {
         ctx.violation(sig, || case.to_json(), || d);
     }
     // the by-path routes, for the cases whose fillers are {none, 8 bytes, decoy record}
-    if case.nontrivial() && case.n >= 2 && case.fill_byte == 0 && case.gaps.iter().all(|g| matches!(g, 0 | 2 | 4)) {
+    if case.nontrivial() && (case.n >= 2 || case.n == 0) && case.fill_byte == 0 && case.gaps.iter().all(|g| matches!(g, 0 | 2 | 4)) {
         match catch(|| observe_disk(case, &shp, &shx)) {
             Ok(routes) => {
                 ctx.lib_calls += 6;
@@ -532,7 +550,8 @@ pub fn check(tier: Tier) -> i32 {
         return 2;
     }
     let types: Vec<Ty> = ALL13.to_vec();
-    let ns: Vec<usize> = tier.pick(vec![1, 2, 3], vec![1, 2, 3, 4]);
+    // (n = 0: an index without entries over a .shp that holds nothing but filler, or a whole unlisted record)
+    let ns: Vec<usize> = tier.pick(vec![0, 1, 2, 3], vec![0, 1, 2, 3, 4]);
     let mut cases = vec![];
     for ty in &types {
         for &n in &ns {
@@ -603,7 +622,7 @@ pub fn check(tier: Tier) -> i32 {
             tier,
             level: "model_checking",
             engine: "E2 enumerator over RefCodec-built .shp/.shx pairs (all permutations x all filler combinations), read by the real ShapeReader::with_shx",
-            rule: "types x n records of pairwise different size x every permutation of physical order against index order x every combination of fillers {none, 2, 8, 14 bytes, a complete valid decoy record} before / between / after x filler byte {0x00, 0xff}; header length covers the whole file; every non-trivial case again through sources that return at most 1 resp. 7 bytes per read; a typed iteration as another type going from mismatch to mismatch (one per entry); the iterator also driven through 14 programs of std adaptors (nth, skip, step_by, last, count) from 3 reader states; cases with fillers in {none, 8 bytes, decoy} also as files on disk through read_shapes, read_shapes_as, ShapeReader::from_path; plus records at byte offsets beyond 2^31 and 3*2^30 on a sparse source (physical and permuted index order); non-trivial = some filler or physical order != index order",
+            rule: "types x n records (n = 0 included: a header-only index over fillers) of pairwise different size x every permutation of physical order against index order x every combination of fillers {none, 2, 8, 14 bytes, a complete valid decoy record} before / between / after x filler byte {0x00, 0xff}; header length covers the whole file; every non-trivial case again through sources that return at most 1 resp. 7 bytes per read; a typed iteration as another type going from mismatch to mismatch (one per entry); the iterator also driven through 14 programs of std adaptors (nth, skip, step_by, last, count) from 3 reader states; cases with fillers in {none, 8 bytes, decoy} also as files on disk through read_shapes, read_shapes_as, ShapeReader::from_path; plus records at byte offsets beyond 2^31 and 3*2^30 on a sparse source (physical and permuted index order); non-trivial = some filler or physical order != index order",
             bounds: json!({"types": types.iter().map(|t| t.name()).collect::<Vec<_>>(), "n": ns, "gap_kinds": 5, "cases": cases.len()}),
             exhaustive: true,
             assumptions: vec!["fillers of odd length are impossible (offsets are in 16-bit words)".into()],
